@@ -43,7 +43,9 @@ DecN(n) == IF n < 10 THEN <<Digits[n + 1]>> ELSE DecN(n \div 10) \o <<Digits[(n 
 Dec(n) == IF n < 0 THEN <<"-">> \o DecN(0 - n) ELSE DecN(n)
 
 IsDigits(t) == t # <<>> /\ \A i \in 1..Len(t) : t[i] \in DigitSet
-IsNum(t) == IsDigits(t) \/ (Len(t) > 1 /\ t[1] = "-" /\ IsDigits(Tail(t)))
+\* TLC has 32-bit integers: texts of more than 9 digits are not numbers of the model (BigNum marks them, callers leave the scope)
+IsNum(t) == (IsDigits(t) /\ Len(t) <= 9) \/ (Len(t) > 1 /\ Len(t) <= 10 /\ t[1] = "-" /\ IsDigits(Tail(t)))
+BigNum(t) == (IsDigits(t) /\ Len(t) > 9) \/ (Len(t) > 10 /\ t[1] = "-" /\ IsDigits(Tail(t)))
 RECURSIVE DigitsVal(_, _)
 DigitsVal(t, acc) == IF t = <<>> THEN acc ELSE DigitsVal(Tail(t), acc * 10 + DigitVal[Head(t)])
 NumVal(t) == IF t[1] = "-" THEN 0 - DigitsVal(Tail(t), 0) ELSE DigitsVal(t, 0)
@@ -576,7 +578,9 @@ XPipe(c, s) ==
       sR == [s EXCEPT !.fuel = L.fuel, !.bad = L.bad, !.trig = L.trig, !.inp = L.out, !.eof = FALSE]
       lastInParent == D(s, "Dev_LastPipeInParent")
       R == IF lastInParent THEN XStmt(c.Y, sR) ELSE RunSub(<<c.Y>>, [sR EXCEPT !.out = <<>>])
-      st == IF s.pf /\ R.st = 0 THEN L.st ELSE R.st
+      \* (with the deviation the last stage may have switched pipefail in the shell itself before the status is computed)
+      pf == IF lastInParent THEN R.pf ELSE s.pf
+      st == IF pf /\ R.st = 0 THEN L.st ELSE R.st
       \* bash: a writer whose reader is gone may be killed by SIGPIPE (status 141), depending on timing;
       \* the code's writer just gets an error that nothing looks at
       race == s.pf /\ L.out # <<>> /\ ~R.eof /\ ~lastInParent IN
@@ -760,6 +764,7 @@ XBuiltin(nm, a, s) ==
     [] nm = W_read -> XRead(a, s)
     [] nm = W_trap -> XTrap(a, s)
     [] nm = W_wait -> IF a = <<>> THEN St([s EXCEPT !.bg = FALSE], 0) ELSE Bad(s, "wait with arguments")
+    [] (nm = W_test \/ nm = W_lbr) /\ (\E i \in 1..Len(a) : BigNum(a[i])) -> Bad(s, "integer outside the model's range")
     [] nm = W_test -> St(s, TestArgs(a))
     [] nm = W_lbr ->
          IF a = <<>> \/ a[Len(a)] # W_rbr THEN St(s, 2) ELSE St(s, TestArgs(SubSeq(a, 1, Len(a) - 1)))
@@ -1029,7 +1034,7 @@ DWord(p, d, inF) ==
 
 \* ---- commands (each menu entry is a statement)
 NLeaf == 36
-NCmd  == 61
+NCmd  == 62
 EchoQ(pre, nm) == SCall(<<LW(W_echo), Wd(<<DQ(<<Lit(pre), PES(nm)>>)>>)>>)     \* echo "pre$nm"
 TrapT == <<"e", "c", "h", "o", " ", "T", "$", "?">>
 TrapE == <<"e", "c", "h", "o", " ", "E", "$", "?">>
@@ -1194,6 +1199,12 @@ DCmdK(c, p, d, inF) ==
                        ("Redirs" :> <<[k |-> "Redirect", Op |-> "<<", Word |-> LW(<<"E", "O", "F">>), Hdoc |-> HdocT]>>),
                      <<"while", SP, "read", SP, "l", SEP, "do", SP, "echo", SP, "\"r$l\"", SEP>> \o s.r \o
                      <<"done", SP, "<<", "EOF", "<HDOC>", "p $x\nq", "EOF">>)
+
+    [] c = 61 ->      \* { local x=3; local x; echo "l$x"; } : declaring an already local name again keeps its value
+                 LET lcl(a) == Stm([k |-> "DeclClause", Variant |-> [k |-> "Lit", Value |-> "local"], Args |-> <<a>>]) IN
+                 leaf(Stm(Blk(<<lcl(Asg("x", LW(<<"3">>))), lcl([k |-> "Assign", Naked |-> TRUE, Name |-> Nm("x")]),
+                               EchoQ(<<"l">>, "x")>>)),
+                      <<"{", SP, "local", SP, "x=3", SEP, "local", SP, "x", SEP, "echo", SP, "\"l$x\"", SEP, "}">>)
 
     [] c = 60 ->      \* while IFS= read -r l; do echo "r$l"; done <<-EOF : a body line of blanks only must stay as it is
                  leaf(Stm([k |-> "WhileClause", Cond |-> <<Stm(RawReadCmd(<<"l">>))>>, Do |-> <<EchoQ(<<"r">>, "l")>>]) @@
